@@ -156,6 +156,11 @@ func TestVerifC18Migrate(t *testing.T) {
 			}
 			r.Eval()
 			r.Count("truncations", 1)
+			if merr == nil && !json.Valid(data[:off]) {
+				// what is left is not a JSON document at all: "a truncated file is reported as an error"
+				r.Violate(fmt.Sprintf("truncate/%s@%d/accepted", name, off), fmt.Sprintf("file truncated at byte %d of %d (what is left is not a complete JSON document) was migrated WITHOUT error (reported %d)\n…tail of truncated input: %q", off, len(data), n, tailStr(data[:off], 60)),
+					map[string]interface{}{"list": name, "offset": off})
+			}
 			if merr == nil {
 				r.Count("truncations_accepted_without_loss", 1)
 				if d := diffCanon(got, want); d != "" {
@@ -282,6 +287,9 @@ func TestVerifC18Migrate(t *testing.T) {
 		}
 		r.Eval()
 		r.Nontrivial("menu/" + k)
+		if merr == nil && !json.Valid([]byte(menu[k])) {
+			r.Violate("malformed/"+k+"/accepted", fmt.Sprintf("file that is not a JSON document (%s) migrated WITHOUT error (reported %d)", k, n), map[string]interface{}{"menu": k})
+		}
 		if merr == nil {
 			if d := diffCanon(got, lastWins(base)); d != "" {
 				r.Violate("malformed/"+k, fmt.Sprintf("malformed file (%s) migrated WITHOUT error (reported %d) but signatures of the file are missing:\n%s", k, n, d), map[string]interface{}{"menu": k})
@@ -424,7 +432,8 @@ func TestVerifC18AddGet(t *testing.T) {
 		step{"Batch(A,B)", []string{"A", "B"}, "batch"}, step{"Batch(A,A)", []string{"A", "A"}, "batch"}, step{"Batch(auto,A)", []string{"", "A"}, "batch"},
 		step{"SaveLoad", nil, "saveload"},
 		step{"RefusedLoad(truncated)", nil, "badload-truncated"}, step{"RefusedLoad(malformed)", nil, "badload-malformed"},
-		step{"Save", nil, "save"}, step{"ReloadSameInstance", nil, "reload-same"})
+		step{"Save", nil, "save"}, step{"ReloadSameInstance", nil, "reload-same"},
+		step{"Load(file listing P twice)", nil, "load-dup"})
 	// files that must be refused: a database with three OTHER signatures (X, Y, Z), cut in the
 	// middle of the second entry, and the same database with a wrongly typed field in its last entry
 	var others []detection.Signature
@@ -440,6 +449,12 @@ func TestVerifC18AddGet(t *testing.T) {
 		mal = strings.Replace(string(goodJSON), `"id":"Z"`, `"id":"Z","unknown_field_for_refusal":1`, 1)
 	}
 	os.WriteFile(badFiles["badload-malformed"], []byte(mal), 0o644)
+	// a well-formed file in which one ID is listed twice (as files written before the re-add repair
+	// can be): P (first version), Q, P (second version)
+	dupSigs := []detection.Signature{mkSig("P", 201), mkSig("Q", 202), mkSig("P", 203)}
+	dupJSON, _ := json.Marshal(detection.SignatureDatabase{Version: "1.0", Signatures: dupSigs})
+	dupFile := filepath.Join(scratch, "listed-twice.json")
+	os.WriteFile(dupFile, dupJSON, 0o644)
 	depth := 3
 	idx := 0
 	var rec func(seq []int)
@@ -528,6 +543,18 @@ func TestVerifC18AddGet(t *testing.T) {
 					delete(universe, "X")
 					delete(universe, "Y")
 					delete(universe, "Z")
+				case "load-dup":
+					js, isJSON := b.(*c18JSON)
+					if !isJSON {
+						continue // the embedded store imports such a file through MigrateFromJSON (its own unit)
+					}
+					if err := js.s.LoadDatabase(dupFile); err != nil {
+						r.Violate(key+"/load", "LoadDatabase of a well-formed file failed: "+err.Error(), rp)
+						failed = true
+					} else {
+						// the store now holds the file's content: one record per ID, the last one listed
+						want = map[string]detection.Signature{"P": cloneSig(dupSigs[2]), "Q": cloneSig(dupSigs[1])}
+					}
 				case "save":
 					if ok, err := b.save(); err != nil {
 						r.Violate(key+"/save", "SaveDatabase failed: "+err.Error(), rp)
